@@ -100,34 +100,51 @@ Definition frames_refine_spec : Prop :=
   forall (f : func) (n m : nat) r1 r2,
     vm_run n f = Some r1 -> go_run m f = Some r2 -> r1 = r2.
 
-Lemma native_defer_panic_witness :
-  vm_run 10 (mkfunc [IDeferNat (NPanic 1)] []) = Some (ORunPanics 1, []) /\
+(* the former witness native-defer-panic-host-panic: repaired, the panic of a
+   deferred native function is an ordinary panic (at return, and while another
+   panic unwinds: the second tree, where it is also recovered) *)
+Lemma native_defer_panic_repaired :
+  vm_run 10 (mkfunc [IDeferNat (NPanic 1)] []) = Some (OPanic [(1%N, false, None)], []) /\
   go_run 10 (mkfunc [IDeferNat (NPanic 1)] []) = Some (OPanic [(1%N, false, None)], []).
 Proof. split; vm_compute; reflexivity. Qed.
 
-Lemma frames_refine_spec_refuted : ~ frames_refine_spec.
-Proof.
-  intros H. destruct native_defer_panic_witness as [H1 H2].
-  specialize (H _ _ _ _ _ H1 H2). discriminate.
-Qed.
+Lemma native_defer_panic_unwinding_repaired :
+  let w := mkfunc [IDeferFn [IRecover false] []; IDeferNat (NPanic 1); IPanic 2] [(2, 5%N)] in
+  vm_run 40 w = Some (ONil, [ERecover (Some 1%N)]) /\
+  go_run 40 w = Some (ONil, [ERecover (Some 1%N)]).
+Proof. split; vm_compute; reflexivity. Qed.
 
-Lemma stale_recovered_witness :
+(* the former witness recovered-panic-stays-in-chain: repaired, the machine now agrees with Go *)
+Lemma stale_recovered_repaired :
   let w := mkfunc [IDeferFn [IPanic 5] [(0, 4%N)]; IDeferFn [IRecover false] []; IPanic 2] [(2, 9%N)] in
-  vm_run 40 w = Some (OPanic [(5, false, Some 4); (2, true, Some 9)]%N, [ERecover (Some 2%N)]) /\
+  vm_run 40 w = Some (OPanic [(5, false, Some 4)]%N, [ERecover (Some 2%N)]) /\
   go_run 40 w = Some (OPanic [(5, false, Some 4)]%N, [ERecover (Some 2%N)]).
 Proof. split; vm_compute; reflexivity. Qed.
 
-Lemma dropped_panic_witness :
+(* the former witness nested-recover-drops-active-panic: repaired, the machine now agrees with Go *)
+Lemma dropped_panic_repaired :
   let w := mkfunc [IDeferFn [ICall [IDeferFn [IRecover false] []; IPanic 4] [(1, 7%N)]] [];
                    IDeferFn [IPanic 1] [(0, 11%N)]; IPanic 3] [(2, 13%N)] in
-  vm_run 60 w = Some (OPanic [(3, false, Some 13)]%N, [ERecover (Some 4%N)]) /\
+  vm_run 60 w = Some (OPanic [(1, false, Some 11); (3, false, Some 13)]%N, [ERecover (Some 4%N)]) /\
   go_run 60 w = Some (OPanic [(1, false, Some 11); (3, false, Some 13)]%N, [ERecover (Some 4%N)]).
 Proof. split; vm_compute; reflexivity. Qed.
 
-Lemma callback_panic_witness :
+(* the former witness callback-panic-is-fatal: repaired, a panic that leaves a
+   function called back by native code unwinds through the native frame and the
+   caller recovers it; second tree: two VMs deep, the chain of the callback
+   (a recovered and an aborted record included) reaches Run before the panic of
+   the caller *)
+Lemma callback_panic_repaired :
   let w := mkfunc [IDeferFn [IRecover false] []; ICallback [IPanic 7] [(0, 3%N)]] [] in
-  vm_run 40 w = Some (OCbPanic [(7, false)]%N, []) /\
+  vm_run 40 w = Some (ONil, [ERecover (Some 7%N)]) /\
   go_run 40 w = Some (ONil, [ERecover (Some 7%N)]).
+Proof. split; vm_compute; reflexivity. Qed.
+
+Lemma callback_chain_repaired :
+  let w := mkfunc [IDeferFn [ICallback [ICallback [IDeferFn [IRecover false; IPanic 4] [(1, 8%N)]; IPanic 3] [(1, 9%N)]] []] [];
+                   IPanic 1] [(1, 12%N)] in
+  vm_run 80 w = Some (OPanic [(4, false, Some 8); (3, true, Some 9); (1, false, Some 12)]%N, [ERecover (Some 3%N)]) /\
+  go_run 80 w = Some (OPanic [(4, false, Some 8); (3, true, Some 9); (1, false, Some 12)]%N, [ERecover (Some 3%N)]).
 Proof. split; vm_compute; reflexivity. Qed.
 
 (* ------------------------------------------------------------------ *)
@@ -178,6 +195,13 @@ Proof.
   apply skipn_exact.
 Qed.
 
+Lemma firstn_snoc {A} (l : list A) x r : firstn (S (length l)) (l ++ x :: r) = l ++ [x].
+Proof.
+  replace (l ++ x :: r) with ((l ++ [x]) ++ r) by (rewrite <- app_assoc; reflexivity).
+  replace (S (length l)) with (length (l ++ [x])) by (rewrite app_length; simpl; lia).
+  apply firstn_exact.
+Qed.
+
 Lemma nth_error_prefix {A} (l r : list A) i : i < length l -> nth_error (l ++ r) i = nth_error l i.
 Proof. intros H. apply nth_error_app1. exact H. Qed.
 
@@ -221,6 +245,7 @@ Lemma step_returned_last t A fr junk :
   step t = Next (set_mode t (MNext (length A))).
 Proof.
   intros Hm Hc Hs Ht. unfold step. rewrite Hm. unfold step_next. rewrite Hc, nth_error_mid, Hs.
+  cbv zeta. change (status_eqb Returned Recovered) with false. cbv iota. cbv beta. rewrite Hc.
   rewrite prev_deferred_none by exact Ht. reflexivity.
 Qed.
 
@@ -233,6 +258,8 @@ Proof.
   replace (A ++ d :: fr :: junk) with ((A ++ [d]) ++ fr :: junk) by (rewrite <- app_assoc; reflexivity).
   replace (S (length A)) with (length (A ++ [d])) by (rewrite app_length; simpl; lia).
   rewrite nth_error_mid, Hs.
+  cbv zeta. change (status_eqb Returned Recovered) with false. cbv iota. cbv beta. rewrite Hc.
+  replace (A ++ d :: fr :: junk) with ((A ++ [d]) ++ fr :: junk) by (rewrite <- app_assoc; reflexivity).
   unfold prev_deferred. rewrite app_length. simpl. replace (length A + 1) with (S (length A)) by lia.
   rewrite <- app_assoc. simpl. rewrite nth_error_mid, Hd. simpl.
   rewrite set_nth_mid. reflexivity.
@@ -253,7 +280,8 @@ Lemma after_switch_fn s h i st :
 Proof. reflexivity. Qed.
 
 Lemma after_switch_body s n i st :
-  after_switch s (mkframe (CNat (NBody n)) 0 st) i = Next (set_mode (emit s (EBody n)) (MNext i)).
+  after_switch s (mkframe (CNat (NBody n)) 0 st) i
+  = Next (set_mode (emit (set_calls s (firstn i (scalls s))) (EBody n)) (MNext i)).
 Proof. reflexivity. Qed.
 
 Ltac proj_in H := unfold set_calls, set_mode, emit, set_pc in H; cbn [smode sfn spc scalls schain str sraised souter] in H.
@@ -268,10 +296,10 @@ Lemma dfr_cons c ds : dfr (c :: ds) = dfr ds ++ [mkframe c 0 Deferred].
 Proof. unfold dfr. simpl. rewrite map_app. reflexivity. Qed.
 
 Definition tr_callee (c : callee) : list event :=
-  match c with CFn f => pf_trace f | CNat (NBody n) => [EBody n] | CNat _ => [] end.
+  match c with CFn f => pf_trace f | CNat (NBody n) => [EBody n] | _ => [] end.
 Definition tr_defers (ds : list callee) : list event := flat_map tr_callee ds.
 Definition pf_callee (c : callee) : Prop :=
-  match c with CFn f => pf_func f | CNat (NBody _) => True | CNat _ => False end.
+  match c with CFn f => pf_func f | CNat (NBody _) => True | _ => False end.
 
 (* t is in the loop of nextCall, about to examine the top of base *)
 Definition ret_like (base : list frame) (tr : list event) (r : N) (o : list saved) (t : state) : Prop :=
@@ -300,7 +328,7 @@ Definition fn_ok (f : func) : Prop :=
               ret_like base (rev (pf_trace f) ++ tr) r o t.
 
 Definition callee_ok (c : callee) : Prop :=
-  match c with CFn g => fn_ok g | CNat _ => True end.
+  match c with CFn g => fn_ok g | _ => True end.
 
 Lemma dfr_length ds : length (dfr ds) = length ds.
 Proof. unfold dfr. rewrite map_length, rev_length. reflexivity. Qed.
@@ -325,7 +353,7 @@ Proof.
     assert (HmA : smode t0 = MNext (S (S (length A)))).
     { rewrite Hm. f_equal. unfold A. repeat rewrite app_length. simpl. lia. }
     assert (Hstep := step_returned_deferred t0 A _ _ junk HmA HcA eq_refl eq_refl).
-    destruct c as [h|nk].
+    destruct c as [h|nk|]; [| |contradiction].
     + (* an interpreted deferred function *)
       rewrite after_switch_fn in Hstep. proj_in Hstep.
       replace (A ++ mkframe x 0 Returned :: mkframe x 0 Returned :: junk)
@@ -343,12 +371,12 @@ Proof.
       * eapply leads_trans; [apply leads_step; exact Hstep|]. eapply leads_trans; eassumption.
       * unfold tr_defers in *. simpl. rewrite rev_app_distr, <- app_assoc. exact Hrl.
     + destruct nk as [n| | |]; simpl in Hpc; try contradiction.
-      rewrite after_switch_body in Hstep.
+      rewrite after_switch_body in Hstep. proj_in Hstep. rewrite firstn_snoc in Hstep.
       match type of Hstep with _ = Next ?u => set (t1 := u) in * end.
       destruct (IH base x (EBody n :: str t0) (sraised t0) (souter t0) t1 Hpds Hods Htop) as [t [Hl Hrl]].
       { unfold t1. repeat split; proj.
         - f_equal. unfold A. repeat rewrite app_length. simpl. lia.
-        - exists (mkframe x 0 Returned :: junk). unfold A. repeat rewrite <- app_assoc. reflexivity.
+        - exists []. unfold A. repeat rewrite <- app_assoc. reflexivity.
         - exact Hch. }
       exists t. split.
       * eapply leads_trans; [apply leads_step; exact Hstep|exact Hl].
@@ -391,7 +419,7 @@ Lemma step_exec_at s f ins :
                         if status_eqb (fstat call) Started then
                           match fcl call with
                           | CFn g => Next (mkstate MExec (Some g) (fpc call) (firstn i (scalls s)) (schain s) (str s) (sraised s) (souter s))
-                          | CNat _ => Next (mkstate MExec None (fpc call) (firstn i (scalls s)) (schain s) (str s) (sraised s) (souter s))
+                          | CNat _ | CNone => Next (mkstate MExec None (fpc call) (firstn i (scalls s)) (schain s) (str s) (sraised s) (souter s))
                           end
                         else Next (set_mode s (MNext (S i)))
                     end
@@ -450,7 +478,7 @@ Proof.
     rewrite nth_error_mid in Hstep. simpl in Hstep.
     match type of Hstep with _ = Next ?u => set (s1 := u) in * end.
     assert (Hstep1 := step_deferred_top s1 A (mkframe c 0 Deferred) [] f eq_refl eq_refl eq_refl eq_refl).
-    destruct c as [h|nk].
+    destruct c as [h|nk|]; [| |contradiction].
     + rewrite after_switch_fn in Hstep1. proj_in Hstep1.
       replace (A ++ [mkframe (CFn f) 0 Returned]) with ((A ++ [mkframe (CFn f) 0 Returned]) ++ []) in Hstep1 by apply app_nil_r.
       replace (S (length A)) with (length (A ++ [mkframe (CFn f) 0 Returned])) in Hstep1 by (rewrite app_length; simpl; lia).
@@ -466,7 +494,7 @@ Proof.
         eapply leads_trans; eassumption.
       * unfold tr_defers in *. simpl. rewrite rev_app_distr, <- app_assoc. exact Hrl.
     + destruct nk as [n| | |]; simpl in Hpc; try contradiction.
-      rewrite after_switch_body in Hstep1.
+      rewrite after_switch_body in Hstep1. proj_in Hstep1. rewrite firstn_snoc in Hstep1.
       match type of Hstep1 with _ = Next ?u => set (t1 := u) in * end.
       destruct (after_deferred ds base (CFn f) (EBody n :: tr) r o t1 Hpds Hods Htop) as [t [Hl Hrl]].
       { unfold t1. repeat split; proj.
@@ -501,7 +529,7 @@ Proof.
 Qed.
 
 Definition small_callee (bound : nat) (c : callee) : Prop :=
-  match c with CFn g => bsize (fbody g) < bound | CNat _ => True end.
+  match c with CFn g => bsize (fbody g) < bound | _ => True end.
 
 Lemma exec_suffix f :
   (forall g, bsize (fbody g) < bsize (fbody f) -> pf_func g -> fn_ok g) ->
@@ -514,7 +542,7 @@ Proof.
   intros IHf.
   assert (Hoks : forall ds, Forall pf_callee ds -> Forall (small_callee (bsize (fbody f))) ds -> Forall callee_ok ds).
   { induction ds as [|c ds IHd]; intros Hp Hs; constructor.
-    - inversion Hp; inversion Hs; subst. destruct c as [g|]; [|exact I]. apply IHf; assumption.
+    - inversion Hp; inversion Hs; subst. destruct c as [g| |]; [|exact I|exact I]. apply IHf; assumption.
     - inversion Hp; inversion Hs; subst. apply IHd; assumption. }
   induction rest as [|x rest IH]; intros pre ds base tr r o Hbody Hpf Hpds Hsm Htop.
   - rewrite app_nil_r in Hbody. subst pre. simpl.
@@ -627,13 +655,13 @@ Qed.
 (* ------------------------------------------------------------------ *)
 (* GoSpec on panic-free trees gives the same trace                      *)
 
-Definition gadd (g : gst) (es : list event) : gst := mkgst (rev es ++ gtr g) [] (gstale g) (gdrop g).
+Definition gadd (g : gst) (es : list event) : gst := mkgst (rev es ++ gtr g) [].
 
 Definition rec_ok (n : nat) (rec : func -> bool -> bool -> gst -> gres) : Prop :=
   forall h b1 b2 g, pf_func h -> fsize h <= n -> gpan g = [] -> rec h b1 b2 g = GNormal (gadd g (pf_trace h)).
 
 Definition callee_fits (n : nat) (c : callee) : Prop :=
-  match c with CFn h => fsize h <= n | CNat _ => True end.
+  match c with CFn h => fsize h <= n | _ => True end.
 
 Lemma gadd_app g a b : gadd (gadd g a) b = gadd g (a ++ b).
 Proof. unfold gadd. simpl. rewrite rev_app_distr, <- app_assoc. reflexivity. Qed.
@@ -642,18 +670,18 @@ Lemma gadd_pan g es : gpan (gadd g es) = [].
 Proof. reflexivity. Qed.
 
 Lemma g_rundefers_pf n rec bp : rec_ok n rec ->
-  forall ds g ar, Forall pf_callee ds -> Forall (callee_fits n) ds -> gpan g = [] ->
-  g_rundefers rec bp ds false ar g = GNormal (gadd g (tr_defers ds)).
+  forall ds g, Forall pf_callee ds -> Forall (callee_fits n) ds -> gpan g = [] ->
+  g_rundefers rec bp ds false g = GNormal (gadd g (tr_defers ds)).
 Proof.
-  intros Hrec. induction ds as [|d ds IH]; intros g ar Hpf Hfit Hg.
+  intros Hrec. induction ds as [|d ds IH]; intros g Hpf Hfit Hg.
   - simpl. unfold gadd. simpl. destruct g; simpl in *. subst. reflexivity.
   - inversion Hpf as [|? ? Hp1 Hp2]; subst. inversion Hfit as [|? ? Hf1 Hf2]; subst. simpl g_rundefers.
-    destruct d as [h|nk].
+    destruct d as [h|nk|]; [| |contradiction].
     + rewrite (Hrec h false bp g Hp1 Hf1 Hg).
-      rewrite (IH (gadd g (pf_trace h)) ar Hp2 Hf2 eq_refl).
+      rewrite (IH (gadd g (pf_trace h)) Hp2 Hf2 eq_refl).
       rewrite gadd_app. reflexivity.
     + destruct nk as [k| | |]; simpl in Hp1; try contradiction.
-      rewrite (IH (gemit g (EBody k)) ar Hp2 Hf2 Hg).
+      rewrite (IH (gemit g (EBody k)) Hp2 Hf2 Hg).
       unfold gadd, gemit, tr_defers. simpl. rewrite <- app_assoc. reflexivity.
 Qed.
 
@@ -711,6 +739,6 @@ Qed.
 Theorem go_run_pf f : pf_func f -> forall m, fsize f <= m -> go_run m f = Some (ONil, pf_trace f).
 Proof.
   intros Hpf m Hm. unfold go_run.
-  rewrite (gfn_pf m f false false (mkgst [] [] false false) Hpf Hm eq_refl).
+  rewrite (gfn_pf m f false false (mkgst [] []) Hpf Hm eq_refl).
   unfold gadd. simpl. rewrite app_nil_r, rev_involutive. reflexivity.
 Qed.
